@@ -158,6 +158,17 @@ CLAIMED = {
              "ignored; known finding C05-reexport-private-default excluded by its predicate",
         ref="DESIGN.md section 5 C12",
     ),
+    "C06": dict(
+        text="A four-file world written with occurrence markers (the generator knows which entity each identifier occurrence outside "
+             "comments/literals is bound to: declarations, dummy lists, i=i+1, x$y, shadowing dummies, same spelling in other modules incl. a "
+             "default-PRIVATE one, a type component, literals containing '!' or the other quote): from every occurrence of every entity, with the "
+             "cursor at start/middle/end, references, documentHighlight and rename answer exactly that entity's occurrences with exact spans, and "
+             "applying the rename edits changes exactly those identifiers. Plus the occurrence regex (read from the current source) on all token "
+             "lines of <=4/5 tokens: hits == whole-word occurrences.",
+        note="(occurrence, cursor, method) indices are symbolic and forked by the solver; each request then runs concretely; known finding "
+             "C06-use-rename-clause (renamed USE association) is shown by its witness and kept out of the main world",
+        ref="DESIGN.md section 5 C06",
+    ),
 }
 
 NOT_APPLICABLE = {
